@@ -24,6 +24,7 @@ class ClassInfo:
     bases: list[str]
     is_dataclass: bool = False
     is_enum: bool = False
+    nested: dict = field(default_factory=dict)   # name -> ClassInfo of classes defined in the class body
     # ordered (name, annotation ast or None, default ast or None) for dataclass fields
     dc_fields: list[tuple[str, Optional[ast.expr], Optional[ast.expr]]] = field(default_factory=list)
     methods: dict[str, ast.AST] = field(default_factory=dict)
@@ -93,7 +94,15 @@ class Repo:
             if isinstance(node, (ast.FunctionDef, ast.AsyncFunctionDef)):
                 mi.functions[node.name] = node
             elif isinstance(node, ast.ClassDef):
-                mi.classes[node.name] = self._index_class(mi, node)
+                ci = self._index_class(mi, node)
+                mi.classes[node.name] = ci
+                # classes nested in a class (RTCSctpTransport.State): indexed under the dotted name
+                for sub in node.body:
+                    if isinstance(sub, ast.ClassDef):
+                        nci = self._index_class(mi, sub)
+                        nci.name = f"{node.name}.{sub.name}"
+                        ci.nested[sub.name] = nci
+                        mi.classes[nci.name] = nci
             elif isinstance(node, ast.Assign) and len(node.targets) == 1 and isinstance(node.targets[0], ast.Name):
                 mi.consts[node.targets[0].id] = node.value
             elif isinstance(node, ast.AnnAssign) and isinstance(node.target, ast.Name) and node.value is not None:
